@@ -16,6 +16,8 @@ FUNCTIONS = ["UserData/ExtUserData.__init__/toJSON", "ParseUserData.parse/parseC
 BEHAVIOURS = {"absent": None, "dict": 0, "list": 1, "none": 2, "empty": 3, "raises": 4, "raises-noargs": 5,
               "null": 8, "string": 9}
 DISPATCH = ["%s:%s" % (sec, b) for sec in ("UD", "ED") for b in BEHAVIOURS] + ["UD:disabled", "ED:disabled", "XX:other"]
+SECOND = ["UD:absent", "ED:absent", "UD:dict", "UD:raises", "ED:none"]
+BIG = ["%s:L%d" % (s, L) for s in ("UD", "ED", "XX") for L in (32759, 32760, 40001, 65527)]
 TEXT = ["t4", "w:0", "w:3", "w:7", "lead", "trail"]
 JSONS = ['{"a": 1}', '[1, "two", null]', '"just text"', "0", "false", "null", '{"k": {"n": [1, 2]}}', '""', "[]", "12.5"]
 LOSSLESS = ["%s:L%d:p%d" % (s, L, p) for s in ("UD", "ED", "XX", "CBOR", "BMC9") for (L, p) in ((1, 0), (5, 3), (16, 14), (17, 15), (20, 18))]
@@ -24,6 +26,8 @@ HARNESSES = [
     {"fn": "h_dispatch", "cases": DISPATCH, "quick_cases": ["UD:absent", "UD:raises-noargs", "ED:none", "UD:dict", "ED:list",
                                                            "UD:disabled", "XX:other", "UD:empty"],
      "timeout": {"quick": 90, "thorough": 300}},
+    {"fn": "h_second", "cases": SECOND, "quick_cases": ["UD:absent", "UD:raises"], "timeout": {"quick": 90, "thorough": 300}},
+    {"fn": "h_big", "cases": BIG, "quick_cases": ["XX:L32760", "UD:L65527"], "timeout": {"quick": 120, "thorough": 400}},
     {"fn": "h_text", "cases": TEXT, "quick_cases": ["w:3", "lead"], "timeout": {"quick": 120, "thorough": 600}},
     {"fn": "h_json", "cases": ["j%d" % i for i in range(len(JSONS))], "quick_cases": ["j0", "j3", "j5", "j7"],
      "timeout": {"quick": 90, "thorough": 300}},
@@ -259,3 +263,74 @@ def h_lossless() -> bool:
         return verdict(False, obs={"exception": repr(ex)})
     conds = [used == len(data) - len(tail), len(back) == L, bytes_eq(back, payload) if len(back) == L else False]
     return verdict(sym_all(conds), obs={"data_lines": out.get("Data")})
+
+
+def h_second() -> bool:
+    """
+    post: _
+    """
+    # the same creator / component twice in one process: the second section is treated like the first
+    sec, beh = CASE.split(":")
+    comp = sym_int("comp", 0, 0xFFFF)
+    cr = letter("creator")
+    assume(sym_not(sym_all([cr == ord("O"), comp == 0x2000])))
+    present = beh != "absent"
+    b = BEHAVIOURS.get(beh) if present else 0
+    p1, p2 = b"\x01\x02\x03", b"\x0a\x0b\x0c\x0d"
+    creator = chr(cr) if sec == "UD" else "O"
+    mk = (lambda p: pb.flat(pb.UD(p, comp=comp))) if sec == "UD" else (lambda p: pb.flat(pb.ED(p, creator=cr, comp=comp)))
+    try:
+        with env(b if b is not None else 0, present) as e:
+            n1, o1, u1 = decode(mk(p1), creator)
+            n2, o2, u2 = decode(mk(p2), creator)
+    except Exception as ex:
+        return verdict(False, obs={"exception": repr(ex)})
+    conds = [list(o1.keys()) == list(o2.keys())]
+    for out, payload in ((o1, p1), (o2, p2)):
+        if beh == "dict":
+            conds.append(out.get("Plugin") is not None)
+        else:
+            conds.append(isinstance(out.get("Data"), list) and hd.parse(out["Data"]) == payload)
+            conds.append(("Error" in out) == (beh in ("raises", "none")))
+    if present:
+        conds.append(len(e.imp.calls) == 2 and bytes(e.imp.calls[1].args[2]) == p2)
+    return verdict(sym_all(conds), obs={"first": o1, "second": o2})
+
+
+def h_big() -> bool:
+    """
+    post: _
+    """
+    # payload lengths up to the 16-bit limit: the section's bytes reach the hex dump complete (hexdump itself is
+    # replaced by a recorder here - C13 covers it - so that 65 527 bytes need not be rendered symbolically)
+    sec, L = CASE.split(":")
+    L = int(L[1:])
+    w = sym_bytes("w", 1)
+    fill = bytes((i * 29 + 3) % 256 for i in range(L - 1))
+    payload = mkbytes(fill, w)
+    if sec == "UD":
+        sect, creator = pb.UD(payload, comp=0x0777), "B"
+    elif sec == "ED":
+        L -= 4                     # (the ED section spends 4 of its bytes on creator + reserved)
+        payload = mkbytes(fill[:L - 1], w)
+        sect, creator = pb.ED(payload, creator=ord("B"), comp=0x0777), "O"
+    else:
+        sect, creator = pb.OTHER("ZZ", payload), "O"
+    data = mkbytes(pb.flat(sect), b"\xEE\xEE")
+    seen = []
+
+    def rec(mv, *a, **k):
+        seen.append(mv)
+        return ["<dump of %d bytes>" % len(mv)]
+    try:
+        with env(present=False) as e, patched(parse_user_data, hexdump=rec), patched(defmod, hexdump=rec), \
+                patched(user_data, hexdump=rec), patched(ext_user_data, hexdump=rec):
+            name, out, used = decode(data, creator)
+    except Exception as ex:
+        return verdict(False, obs={"exception": repr(ex)})
+    conds = [used == len(data) - 2, out.get("Data") == ["<dump of %d bytes>" % L], len(seen) == 1]
+    if len(seen) == 1:
+        got = seen[0]
+        conds += [len(got) == L, untraced(bytes, got[:L - 1]) == fill[:L - 1] if not is_sym(got[:L - 1]) else bytes_eq(got[:L - 1], fill[:L - 1]),
+                  got[L - 1] == w[0]]
+    return verdict(sym_all(conds), obs={"used": used, "data": out.get("Data")})
